@@ -143,6 +143,33 @@ def run(res, proof):
     exhaustive(iw, res, CPLX_PRE, CPLX_OPS, 3 if quick else 4, lines, impl, 'cplx')
     exhaustive(iw, res, MR_PRE, MR_OPS, 2 if quick else 3, lines, impl, 'macro_rxn')
     exhaustive(iw, res, CPLX_PRE, STRAND_OPS, 3 if quick else 4, lines, impl, 'strand')
+    # drop-and-recreate through different rotations: state that an implementation carries between calls (memo tables keyed by
+    # the presentation) survives the object; every ordered pair of rotations, named and unnamed requests
+    from .. import ref as _ref
+    nsc = 0
+    for names, sst in ((['a', 'b', '+', 'a'], '(.+)'), (['a', '+', 'b', '+', 'a', 'b'], '(+.+).'), (['a', 'b', '+', 'a', 'b'], '(.+.)'),
+                       (['a', '+', 'a', '+', 'b'], '(+)+.')):
+        rots = _ref.rotations(names, sst)
+        def req(k, nm):
+            rn, rs = rots[k]
+            return 'mk.cplx\t0\t%s\t-\t%s\t%s' % (nm, ' '.join('+' if x == '+' else {'a': 'h0', 'b': 'h1'}[x] for x in rn), ''.join(rs))
+        for i in range(len(rots)):
+            for j in range(len(rots)):
+                if i == j:
+                    continue
+                for nm2, nm4 in (('X', 'X'), ('X', '-'), ('-', 'X'), ('X', 'Y')):
+                    hl = ['reset'] + CPLX_PRE + [req(i, 'X'), req(j, nm2), 'drop\th2', req(i, 'X'), req(j, nm4), 'names']
+                    ho = hist.run_checked(iw, hl, res, 'C01', check_domains=True)
+                    # the complex re-created in step 4 is h3; a consistent named request through another rotation returns it
+                    if nm4 == 'X' and ho[3].startswith('ret h2 new') and ho[6].startswith('ret h3 new') and not ho[7].startswith('ret h3 old'):
+                        res.violation('recreated-complex-not-found-through-rotation', {'history': hl}, ho[7], 'ret h3 old')
+                    lines += hl; impl += ho
+                    nsc += 1
+                    if ho[3].startswith('ret h2 new') and ho[6].startswith('ret h3 new'):
+                        res.count('drop_recreate_rotation_scenarios_effective')
+                    res.evaluations += 1
+                    res.nontriv(tuple(hl))
+    res.count('drop_recreate_rotation_scenarios', nsc)
     # random long histories over all kinds and classes
     nrand = 400 if quick else 8000
     for _ in range(nrand):
